@@ -1,5 +1,5 @@
 (* Wire format between harness and model: flat lists of integers. *)
-From Coq Require Import List ZArith Arith Bool.
+From Coq Require Import List ZArith Arith Bool QArith Qcanon.
 From MsmV Require Import Lib.Result.
 Import ListNotations.
 Local Open Scope Z_scope.
@@ -40,6 +40,15 @@ Definition eres {A} (e : A -> list Z) (r : res A) : list Z :=
   match r with Ok a => 0 :: e a | Err k => [1; errcode k] end.
 Definition eopt {A} (e : A -> list Z) (o : option A) : list Z :=
   match o with None => [0] | Some a => 1 :: e a end.
+
+Definition eQ (q : Qc) : list Z := [Qnum (this q); Zpos (Qden (this q))].
+Definition eQs (l : list Qc) : list Z := elist eQ l.
+Definition eQmat (m : list (list Qc)) : list Z := elist eQs m.
+Definition eZmat (m : list (list Z)) : list Z := elist eZs m.
+Definition dQ : dec Qc := fun l =>
+  match l with
+  | n :: d :: r => if 0 <? d then Some (Q2Qc (Qmake n (Z.to_pos d)), r) else None
+  | _ => None end.
 
 (* a malformed request is answered by the single token -999999 *)
 Definition malformed : list Z := [-999999].
